@@ -36,6 +36,12 @@
 //   cleanup                       release everything the threads still hold (main thread)
 //   misuse <kind>                 one misuse on the main thread inside a nested setjmp scope, then the NEXT
 //                                 allocation in a helper thread under a 2 s deadline (`next done|hang`)
+//                                 kinds: {free,delete,delarr,realloc}_bogus (never allocated), new_free malloc_delete
+//                                 new_delarr newarr_delete new_realloc newarr_realloc newarr_free malloc_delarr (allocator
+//                                 mismatch), corrupt_{free,delete,delarr,realloc} (guard bytes overrun)
+//   runm <kind>                   like `run`, and WHILE the worker threads run the test's own (main) thread performs the
+//                                 misuse <kind> through the library's real reporter (failWith -> longjmp out of the locked
+//                                 wrapper); the workers must finish (watchdog: `stalled` after 6 s without progress)
 // Script lines are validated in file order (a valid linearisation); a line whose operands are missing or
 // not owned is printed as `> skip`.
 #include "fixture.h"
@@ -85,6 +91,7 @@ std::atomic<int> g_go(0);
 std::atomic<long> g_progress(0);    // bumped by every operation of every thread; watched by the watchdog thread
 std::atomic<long> g_locks(0), g_unlocks(0), g_inside(0), g_overlap(0), g_unlocked(0), g_reports(0), g_pattern(0), g_stuck(0);
 std::atomic<int> g_concurrent(0);
+std::atomic<int> g_count_only(0);   // main thread: count reports instead of raising them (cleanup sweep)
 bool g_on = false;
 unsigned long g_seed = 1;
 
@@ -150,7 +157,7 @@ void* my_memset(void* p, int v, size_t n) { if ((v & 0xff) == 0xCD) underlying_c
 MemoryLeakFailure* g_real_reporter = 0;
 struct SwitchReporter : public MemoryLeakFailure {
     virtual void fail(char* fail_string) CPPUTEST_OVERRIDE {
-        if (g_concurrent.load() || t_worker) { g_reports.fetch_add(1); return; }
+        if (g_count_only.load() || t_worker) { g_reports.fetch_add(1); return; }
         g_real_reporter->fail(fail_string);
     }
 };
@@ -242,9 +249,11 @@ void* worker(void* arg) {
 // ---- misuse on the main thread
 char g_bogus[64];
 enum MisuseKind { M_FREE_BOGUS, M_DELETE_BOGUS, M_DELARR_BOGUS, M_REALLOC_BOGUS, M_NEW_FREE, M_MALLOC_DELETE,
-                  M_NEW_DELARR, M_NEWARR_DELETE, M_CORRUPT_FREE, M_CORRUPT_DELETE, M_CORRUPT_DELARR, M_CORRUPT_REALLOC, M_NONE };
+                  M_NEW_DELARR, M_NEWARR_DELETE, M_CORRUPT_FREE, M_CORRUPT_DELETE, M_CORRUPT_DELARR, M_CORRUPT_REALLOC,
+                  M_NEW_REALLOC, M_NEWARR_REALLOC, M_NEWARR_FREE, M_MALLOC_DELARR, M_NONE };
 const char* const MISUSE_NAMES[] = { "free_bogus", "delete_bogus", "delarr_bogus", "realloc_bogus", "new_free", "malloc_delete",
-                                     "new_delarr", "newarr_delete", "corrupt_free", "corrupt_delete", "corrupt_delarr", "corrupt_realloc" };
+                                     "new_delarr", "newarr_delete", "corrupt_free", "corrupt_delete", "corrupt_delarr", "corrupt_realloc",
+                                     "new_realloc", "newarr_realloc", "newarr_free", "malloc_delarr" };
 
 volatile int g_misuse_returned = 0;
 
@@ -264,6 +273,10 @@ void do_misuse(void* arg) {
     case M_CORRUPT_DELETE: p = (char*) ::operator new(16); p[16] = 'x'; ::operator delete((void*) p); break;
     case M_CORRUPT_DELARR: p = (char*) ::operator new[](16); p[16] = 'x'; ::operator delete[]((void*) p); break;
     case M_CORRUPT_REALLOC: p = (char*) cpputest_malloc_location(16, __FILE__, __LINE__); p[16] = 'x'; cpputest_realloc_location(p, 32, __FILE__, __LINE__); break;
+    case M_NEW_REALLOC:    p = (char*) ::operator new(16); cpputest_realloc_location(p, 32, __FILE__, __LINE__); break;
+    case M_NEWARR_REALLOC: p = (char*) ::operator new[](16); cpputest_realloc_location(p, 32, __FILE__, __LINE__); break;
+    case M_NEWARR_FREE:    p = (char*) ::operator new[](16); cpputest_free_location(p, __FILE__, __LINE__); break;
+    case M_MALLOC_DELARR:  p = (char*) cpputest_malloc_location_with_leak_detection(16, __FILE__, __LINE__); ::operator delete[]((void*) p); break;
     default: break;
     }
     g_misuse_returned = 1;      // the report did not leave the scope
@@ -449,8 +462,15 @@ void body() {
             }
             else vh::emit("> skip");
         }
-        else if (w[0] == "run" && w.size() == 1 && nthreads > 0 && (g_on || nthreads == 1)) {
-            vh::emit_op("run");
+        else if (((w[0] == "run" && w.size() == 1) || (w[0] == "runm" && w.size() == 2 && g_on)) && nthreads > 0 && (g_on || nthreads == 1)) {
+            int mkind = M_NONE;
+            if (w[0] == "runm") {
+                for (int k = 0; k < M_NONE; k++) if (w[1] == MISUSE_NAMES[k]) mkind = k;
+                if (mkind == M_NONE) { vh::emit("> skip"); continue; }
+            }
+            vh::emit_op(c.raw[i]);
+            size_t failures_before = vh::g_fixture->getFailureCount();
+            int jumped = 0;
             pthread_t th[MAXT];
             for (int t = 0; t < nthreads; t++) { g_script_ptr[t] = g_script[t].empty() ? 0 : &g_script[t][0]; g_script_len[t] = g_script[t].size(); }
             g_locks = 0; g_unlocks = 0; g_overlap = 0; g_unlocked = 0; g_reports = 0; g_pattern = 0; g_stuck = 0;
@@ -460,6 +480,13 @@ void body() {
             g_concurrent.store(1);
             for (int t = 0; t < nthreads; t++) pthread_create(&th[t], 0, worker, (void*) (intptr_t) t);
             g_go.store(1, std::memory_order_release);
+            if (mkind != M_NONE) {
+                // the test's own thread misuses the allocator while the workers are inside the wrappers
+                usleep((useconds_t) (g_seed % 300));
+                g_misuse_returned = 0;
+                jumped = PlatformSpecificSetJmp(do_misuse, &mkind) == 0;
+                g_progress.fetch_add(1, std::memory_order_relaxed);
+            }
             for (int t = 0; t < nthreads; t++) pthread_join(th[t], 0);
             g_concurrent.store(0);
             long after = outstanding_now();
@@ -479,6 +506,10 @@ void body() {
             vh::emit("overlap %ld", g_overlap.load());
             vh::emit("pattern %ld", g_pattern.load());
             if (g_stuck.load()) vh::emit("stuck %ld", g_stuck.load());
+            if (mkind != M_NONE) {
+                vh::emit("reported %lu", (unsigned long) (vh::g_fixture->getFailureCount() - failures_before));
+                vh::emit("left-by-jump %d", jumped);
+            }
             (void) det_ops;
             for (int t = 0; t < MAXT; t++) g_script[t].clear();
             all_ops = 0; det_ops = 0;
@@ -487,7 +518,8 @@ void body() {
             vh::emit_op("cleanup");
             g_reports = 0;
             long before = outstanding_now();
-            g_concurrent.store(1);      // reports are counted, not raised, during the sweep
+            g_concurrent.store(1);
+            g_count_only.store(1);      // reports are counted, not raised, during the sweep
             for (unsigned l = 0; l < MAXL; l++) {
                 if (!g_ptr[l]) continue;
                 g_progress.fetch_add(1, std::memory_order_relaxed);
@@ -497,6 +529,7 @@ void body() {
                 g_ptr[l] = 0; g_owner[l] = -1; g_transit[l] = -1; g_family[l] = F_NONE; g_given[l].store(0);
             }
             g_concurrent.store(0);
+            g_count_only.store(0);
             long after = outstanding_now();
             outstanding += after - before;
             vh::emit("outstanding %ld", outstanding);
@@ -514,7 +547,7 @@ void body() {
             int jumped = PlatformSpecificSetJmp(do_misuse, &kind) == 0;
             vh::emit("reported %lu", (unsigned long) (vh::g_fixture->getFailureCount() - failures_before));
             vh::emit("left-by-jump %d", jumped);
-            vh::emit("lockstate %s", g_locks.load() == g_unlocks.load() ? "free" : "held");
+            vh::emit("lockstate %s", g_locks.load() == g_unlocks.load() ? "free" : g_locks.load() > g_unlocks.load() ? "held" : "over-released");
             // the NEXT allocation, in a helper thread, under a 2 second deadline
             g_probe_done.store(0);
             pthread_t th;
